@@ -230,6 +230,10 @@ def child_main(spec):
             from ipv8.attestation.wallet.database import AttestationsDB
             db = AttestationsDB(spec["dir"], spec["dbname"])
             mgr = None
+        elif spec["kind"] == "manager" and spec.get("community"):
+            comm = _make_communities(spec)          # the store is opened by IdentityCommunity itself (file-backed)
+            mgr = comm["subject"].overlay.identity_manager
+            db = mgr.database
         elif spec["kind"] == "manager":
             from ipv8.attestation.identity.manager import IdentityManager
             mgr = IdentityManager(spec["path"])
@@ -267,7 +271,9 @@ def child_main(spec):
             if name.startswith("insert_"):
                 setattr(db, name, wrap(name))
         nthreads = int(spec.get("threads") or 0)
-        if nthreads > 1:
+        if spec.get("community"):
+            _run_community_ops(spec, comm)
+        elif nthreads > 1:
             sys.setswitchinterval(1e-5)
             first = int(spec.get("first_op") or 0)
             idx = list(enumerate(spec["ops"], first))
@@ -319,6 +325,73 @@ def _make_wallet_v1(spec):
         c.execute(f"INSERT INTO {spec['dbname']} (hash, blob, key) VALUES(?,?,?)", (_unhx(h), _unhx(b), _unhx(k)))
     c.commit()
     c.close()
+
+
+def _make_communities(spec):
+    """two IdentityCommunity instances on mock endpoints: `subject` keeps its identity store in the file database of the
+    experiment (IdentitySettings(working_directory=…) -> <dir>/sqlite/identity.db), `peer` lives in memory"""
+    import asyncio
+    from ipv8.attestation.identity.community import IdentityCommunity, IdentitySettings
+    from ipv8.attestation.identity.manager import IdentityManager
+    from ipv8.keyvault.crypto import ECCrypto
+    from ipv8.peer import Peer
+    from ipv8.test.mocking.ipv8 import MockIPv8
+    loop = asyncio.new_event_loop()
+    asyncio.set_event_loop(loop)
+    crypto = ECCrypto()
+
+    async def build():
+        peer = MockIPv8(Peer(crypto.key_from_private_bin(_unhx(spec["community"]["peer_sk"]))), IdentityCommunity,
+                        settings=IdentitySettings(identity_manager=IdentityManager(":memory:")))
+        subject = MockIPv8(Peer(crypto.key_from_private_bin(_unhx(spec["community"]["subject_sk"]))), IdentityCommunity,
+                           settings=IdentitySettings(working_directory=spec["dir"]))
+        return peer, subject
+    peer, subject = loop.run_until_complete(build())
+    _emit("Y " + peer.my_peer.public_key.key_to_bin().hex())
+    _emit("Y " + subject.my_peer.public_key.key_to_bin().hex())
+    return {"loop": loop, "peer": peer, "subject": subject}
+
+
+def _run_community_ops(spec, comm):
+    """drive the community-level entry points that write to the store: self_advertise (own credentials),
+    on_disclosure (a peer's disclosure is substantiated and, if solicited, attested), on_attest"""
+    from ipv8.attestation.identity.attestation import Attestation
+    from ipv8.attestation.identity.payload import AttestPayload, DisclosePayload
+    loop, peer, subject = comm["loop"], comm["peer"], comm["subject"]
+    peer_creds, own_creds = [], []
+
+    async def run():
+        for n, op in enumerate(spec["ops"], int(spec.get("first_op") or 0)):
+            k = op["op"]
+            try:
+                if k == "own":
+                    own_creds.append(subject.overlay.self_advertise(_unhx(op["hash"]), op["name"]))
+                elif k == "peer_adv":
+                    peer_creds.append(peer.overlay.self_advertise(_unhx(op["hash"]), op["name"]))
+                elif k == "disclose":
+                    chosen = [peer_creds[i] for i in op["creds"] if i < len(peer_creds)]
+                    if not chosen:
+                        continue
+                    for i in op.get("known", []):
+                        if i < len(peer_creds):
+                            md = json.loads(peer_creds[i].metadata.serialized_json_dict)
+                            subject.overlay.add_known_hash(_unhx(op["hashes"][i]), md["name"],
+                                                           peer.my_peer.public_key.key_to_bin())
+                    md_, _, at_, au_ = peer.overlay.pseudonym_manager.disclose_credentials(chosen, set())
+                    tk_ = b"".join(t.get_plaintext_signed() for t in peer.overlay.token_chain)     # root first
+                    packet = peer.overlay.ezr_pack(DisclosePayload.msg_id, DisclosePayload(md_, tk_, at_, au_))
+                    subject.overlay.on_disclosure(peer.endpoint.wan_address, packet)
+                elif k == "attest_me":
+                    if op["cred"] < len(own_creds) and own_creds[op["cred"]] is not None:
+                        att = Attestation.create(own_creds[op["cred"]].metadata, peer.my_peer.key)
+                        packet = peer.overlay.ezr_pack(AttestPayload.msg_id, AttestPayload(att.get_plaintext_signed()))
+                        subject.overlay.on_attest(peer.endpoint.wan_address, packet)
+                else:
+                    raise ValueError("unknown community op " + k)
+                _emit("E " + k)
+            except Exception as e:  # noqa: BLE001
+                _emit(f"U {n} {type(e).__name__}")
+    loop.run_until_complete(run())
 
 
 def _owner_objects(op):
@@ -611,6 +684,11 @@ def zygote_main():
     import ipv8.attestation.wallet.database  # noqa: F401
     import ipv8.keyvault.crypto  # noqa: F401
     import resource  # noqa: F401
+    try:
+        import ipv8.attestation.identity.community  # noqa: F401
+        import ipv8.test.mocking.ipv8  # noqa: F401
+    except Exception:  # noqa: BLE001 - only the community workloads need them
+        pass
     inp = os.fdopen(0, "rb", buffering=0)
     reply_fd = os.dup(1)
     devnull = os.open(os.devnull, os.O_WRONLY)
@@ -867,6 +945,8 @@ class Trace:
                     self.labels.append("xx")
             elif t == "N":
                 self.cur_op = int(w[1])
+            elif t == "Y":
+                self.__dict__.setdefault("pubkeys", set()).add(w[1])
             elif t == "K":
                 self.__dict__.setdefault("tokenless", set()).add(w[1])
             elif t == "O":
@@ -995,7 +1075,7 @@ def execute(zy: Zygote, exp: Experiment, root: str, n: int):
             last = pi == len(exp.ops_phases) - 1
             spec = dict(base, ops=ops, first_call=first_call, first_op=first_op, end="exit",
                         threads=exp.extra.get("threads"), pre=exp.extra.get("pre"), pre_rows=exp.extra.get("pre_rows"),
-                        pre_variant=exp.extra.get("pre_variant"))
+                        pre_variant=exp.extra.get("pre_variant"), community=exp.extra.get("community"))
             delay = None
             if last:
                 k = exp.kill
@@ -1017,7 +1097,8 @@ def execute(zy: Zygote, exp: Experiment, root: str, n: int):
             first_op += len(ops)
             if not last:
                 tr.end_phase()
-        vspec = dict(base, pks=exp.pks, sks=exp.sks, hashes=exp.hashes, pubs=exp.extra.get("pubs", []))
+        vspec = dict(base, pks=exp.pks, sks=exp.sks, hashes=exp.hashes,
+                     pubs=list(exp.extra.get("pubs", [])) + sorted(getattr(tr, "pubkeys", set())))
         dump = run_verify(zy, vspec)
         return {"trace": tr, "rc": res["rc"], "stderr": res["stderr"], "dump": dump, "phases_run": pi + 1,
                 "phase_points": phase_points}
@@ -1706,6 +1787,42 @@ def scripted_foreign(rng):
                       extra={"pubs": [pub_of(_hx(k)) for k in (sk1, sk2, sk3, sk4, sk5)]})
 
 
+def gen_community_ops(rng, n_ops):
+    """the community-level writers of the store: IdentityCommunity.self_advertise, on_disclosure (solicited or not),
+    on_attest, on a subject whose identity store is a file"""
+    ops, hashes, n_peer, n_own = [], [], 0, 0
+    for _ in range(n_ops):
+        c = rng.random()
+        if c < 0.3 or n_peer == 0:
+            h = rb(rng, 32)
+            hashes.append(_hx(h))
+            ops.append({"op": "peer_adv", "hash": _hx(h), "name": "p%d" % n_peer})
+            n_peer += 1
+        elif c < 0.6:
+            sel = sorted(rng.sample(range(n_peer), rng.randrange(1, n_peer + 1)))
+            known = [i for i in sel if rng.random() < 0.7]
+            ops.append({"op": "disclose", "creds": sel, "known": known, "hashes": list(hashes)})
+        elif c < 0.85 or n_own == 0:
+            ops.append({"op": "own", "hash": _hx(rb(rng, 32)), "name": "o%d" % n_own})
+            n_own += 1
+        else:
+            ops.append({"op": "attest_me", "cred": rng.randrange(n_own)})
+    extra = {"community": {"peer_sk": _hx(b"LibNaCLSK:" + rb(rng, 64)), "subject_sk": _hx(b"LibNaCLSK:" + rb(rng, 64))}}
+    return ops, extra
+
+
+def scripted_community(rng):
+    h = [_hx(rb(rng, 32)) for _ in range(3)]
+    ops = [{"op": "own", "hash": _hx(rb(rng, 32)), "name": "o0"},
+           {"op": "peer_adv", "hash": h[0], "name": "p0"}, {"op": "peer_adv", "hash": h[1], "name": "p1"},
+           {"op": "disclose", "creds": [1], "known": [1], "hashes": h},          # solicited: stored and attested
+           {"op": "attest_me", "cred": 0},
+           {"op": "peer_adv", "hash": h[2], "name": "p2"},
+           {"op": "disclose", "creds": [2], "known": [], "hashes": h}]           # rest of the chain, not attested
+    extra = {"community": {"peer_sk": _hx(b"LibNaCLSK:" + rb(rng, 64)), "subject_sk": _hx(b"LibNaCLSK:" + rb(rng, 64))}}
+    return Experiment("manager", [ops], None, "scripted-community", extra=extra)
+
+
 def reload_bound():
     """the bound of the in-memory structures the reload path may use (TokenTree's buffer of tokens waiting for their
     predecessor), read from the working tree; workload sizes are chosen relative to it"""
@@ -1792,6 +1909,7 @@ def scripted(rng):
         wallet_v1_experiment(rng, "no_version_row"),
         wallet_v1_experiment(rng, "no_option_table"),
         scripted_foreign(rng),
+        scripted_community(rng),
     ]
 
 
@@ -2023,6 +2141,11 @@ def run(ctx):
             api_exps.append(Experiment("manager", phases, None, f"foreign-{i}", extra={"pubs": pubs}))
             for o in ops:
                 ctx.count("foreign_how:" + o["how"] + ("-no-tokens" if o.get("drop_tokens") else ""))
+        for i in range(ctx.scale(3, 16)):
+            ops, extra = gen_community_ops(rng, rng.choice([4, 7, 10]))
+            api_exps.append(Experiment("manager", [ops], None, f"community-{i}", extra=extra))
+            for o in ops:
+                ctx.count("community_op:" + o["op"])
         for i in range(ctx.scale(2, 8)):
             ops, sks = gen_randsig_ops(rng, rng.choice([2, 4, 6]))
             api_exps.append(Experiment("manager", [ops], None, f"randsig-{i}", sks=sks))
@@ -2063,6 +2186,8 @@ def run(ctx):
                 for o_ in ph_:
                     if "_class" in o_:
                         ctx.count(o_["_class"])
+                    if e_.extra.get("community"):
+                        ctx.count("community_op:" + o_["op"])
     finally:
         runner.close()
     coverage_gate(ctx)
@@ -2099,6 +2224,8 @@ REQUIRED_CLASSES = {
     "foreign_how:add_attestation": "", "object_readback:tok": "", "object_readback:md": "", "object_readback:att": "",
     "object_readback:watt": "", "call_raised:IntegrityError": "", "store_shape:chain": "", "threads:": "threaded workloads",
     "randsig:": "randomised-signature keys", "model:compared": "", "open_compared": "",
+    "community_op:own": "IdentityCommunity.self_advertise", "community_op:disclose": "IdentityCommunity.on_disclosure",
+    "community_op:attest_me": "IdentityCommunity.on_attest",
 }
 
 
